@@ -265,6 +265,9 @@ func delimFree(p []byte, d string) []byte {
 			p[i] = d[(int(p[i])+i)%len(d)]
 		}
 	}
+	if len(p) > 2 && len(d) > 1 && p[1]%3 == 1 {
+		copy(p, d[1:]) // start with a proper suffix of the delimiter
+	}
 	if len(p) >= len(d) && len(d) > 1 && p[0]%3 == 0 {
 		copy(p[len(p)-(len(d)-1):], d[:len(d)-1]) // end in the longest proper prefix of the delimiter
 	}
